@@ -1,0 +1,41 @@
+//! Verification hooks (compiled only with `--cfg kahflane_turdb_verif`).
+//!
+//! The verification harness installs callbacks here; without a callback every hook is a
+//! single relaxed atomic load. Nothing in this module is compiled in normal builds.
+
+use std::sync::atomic::{AtomicUsize, Ordering};
+
+static YIELD_HOOK: AtomicUsize = AtomicUsize::new(0);
+static IO_HOOK: AtomicUsize = AtomicUsize::new(0);
+
+/// Install (or clear) the yield-point callback. The callback receives the site name.
+pub fn set_yield_hook(f: Option<fn(&'static str)>) {
+    YIELD_HOOK.store(f.map(|f| f as usize).unwrap_or(0), Ordering::SeqCst);
+}
+
+/// A scheduling point between two atomic steps of a concurrent protocol.
+#[inline]
+pub fn yield_point(site: &'static str) {
+    let p = YIELD_HOOK.load(Ordering::Relaxed);
+    if p != 0 {
+        // SAFETY: only `set_yield_hook` stores here, and only valid `fn(&'static str)` pointers.
+        let f: fn(&'static str) = unsafe { std::mem::transmute(p) };
+        f(site);
+    }
+}
+
+/// Install (or clear) the I/O event callback: (kind, path-or-name, a, b).
+pub fn set_io_hook(f: Option<fn(&'static str, &str, u64, u64)>) {
+    IO_HOOK.store(f.map(|f| f as usize).unwrap_or(0), Ordering::SeqCst);
+}
+
+/// An I/O-relevant event (page mutation, WAL write, sync, truncate, file create...).
+#[inline]
+pub fn io_event(kind: &'static str, name: &str, a: u64, b: u64) {
+    let p = IO_HOOK.load(Ordering::Relaxed);
+    if p != 0 {
+        // SAFETY: only `set_io_hook` stores here, and only valid fn pointers of this type.
+        let f: fn(&'static str, &str, u64, u64) = unsafe { std::mem::transmute(p) };
+        f(kind, name, a, b);
+    }
+}
